@@ -5,6 +5,9 @@ from __future__ import annotations
 import ast
 
 from sa.astutil import (
+    is_truthy_test,
+    knows,
+    only_knows,
     loop_exits,
     arg_or_kw,
     call_name,
@@ -306,9 +309,8 @@ def r3_group_loop(ctx):
             tests = enclosing_tests(n.ast, stop=loop)
             if (
                 len(tests) == 1
-                and tests[0][1]
                 and recv_name
-                and is_falsy_test(tests[0][0], recv_name)
+                and ((tests[0][1] and is_falsy_test(tests[0][0], recv_name)) or (not tests[0][1] and is_truthy_test(tests[0][0], recv_name)))
             ):
                 skip_nodes.append(n)
             else:
@@ -583,7 +585,7 @@ def r5_call_shape(ctx):
     # 'arguments' parameter may only be replaced by {} when None
     for st, val in local_defs(init, "arguments"):
         tests = enclosing_tests(st)
-        okd = isinstance(val, ast.Dict) and not val.keys and len(tests) == 1 and norm(tests[0][0]) in ("arguments is None", "not arguments")
+        okd = isinstance(val, ast.Dict) and not val.keys and (only_knows(tests, "arguments is None") or only_knows(tests, "not arguments"))
         ctx.check(okd, f"{MF}.__init__#default", "arguments defaulted to {} only when None" if okd else f"configured arguments are rewritten: {norm(st)}", where=init, node=st)
     st_en = [st for st in walk_ordered(init.node) if isinstance(st, (ast.Assign, ast.AnnAssign)) and any(dotted(t) in ("self.enabled", "self._enabled") for t in (st.targets if isinstance(st, ast.Assign) else [st.target]))]
     ok = len(st_en) == 1 and dotted(st_en[0].value) == "enabled"
